@@ -324,6 +324,10 @@ pub trait Writer {
         length: u64,
         format: Format,
     ) -> Result<()> {
+        // 32-bit lengths of 0xffff_fff0 and above are reserved and cannot be read back.
+        if format == Format::Dwarf32 && (0xffff_fff0..=0xffff_ffff).contains(&length) {
+            return Err(Error::InitialLengthOverflow);
+        }
         self.write_udata_at(offset.0, length, format.word_size())
     }
 }
